@@ -92,18 +92,20 @@ func (a *Allocation) GetPermission(addr net.Addr) *Permission {
 func (a *Allocation) AddPermission(perms *Permission) {
 	fingerprint := ipnet.FingerprintAddr(perms.Addr)
 
-	a.permissionsLock.RLock()
-	existedPermission, ok := a.permissions[fingerprint]
-	a.permissionsLock.RUnlock()
-
-	if ok {
-		existedPermission.refresh(perms.timeout)
-
-		return
-	}
-
 	perms.allocation = a
 	a.permissionsLock.Lock()
+	if existedPermission, ok := a.permissions[fingerprint]; ok {
+		if existedPermission.refresh(perms.timeout) {
+			a.permissionsLock.Unlock()
+
+			return
+		}
+		// The timer of the existing permission has fired and its removal is waiting for
+		// this lock: a refresh comes too late for it. Complete the removal here and install
+		// the new permission below, so that a successful CreatePermission always leaves a
+		// permission with a full timeout behind.
+		a.deletePermission(fingerprint, existedPermission.Addr)
+	}
 	// A request that was still in flight when the allocation was closed must not leave a
 	// permission (and its timer) behind on the dead allocation. Close() marks the
 	// allocation closed before it collects the permissions, so checking under the lock
@@ -139,6 +141,24 @@ func (a *Allocation) RemovePermission(addr net.Addr) {
 	if _, ok := a.permissions[fingerprint]; !ok {
 		return
 	}
+	a.deletePermission(fingerprint, addr)
+}
+
+// removeExpiredPermission is the timer callback of perms. It removes only that very
+// permission: by the time it gets the lock, the address may have a newer one.
+func (a *Allocation) removeExpiredPermission(perms *Permission) {
+	a.permissionsLock.Lock()
+	defer a.permissionsLock.Unlock()
+
+	fingerprint := ipnet.FingerprintAddr(perms.Addr)
+	if a.permissions[fingerprint] != perms {
+		return
+	}
+	a.deletePermission(fingerprint, perms.Addr)
+}
+
+// deletePermission removes an existing entry and reports it. Caller must hold permissionsLock.
+func (a *Allocation) deletePermission(fingerprint string, addr net.Addr) {
 	delete(a.permissions, fingerprint)
 
 	if a.eventHandler.OnPermissionDeleted != nil {
